@@ -3,7 +3,7 @@
    extracted file into the current directory. *)
 From Coq Require Import Extraction ExtrOcamlBasic.
 From LV Require Import Base.Bytes Base.Utf8 Base.Base64 Model.Codec Model.Response Model.ServerInfo
-  Model.Auth Model.Client Model.Address Model.HeaderEnc Model.Body Model.Mailbox Model.Headers Model.Builder Model.Pool Model.Mime Model.Transports Model.Dkim Model.Date Model.TypedHeaders Model.Tls Spec.Dkim Spec.MimeReader Spec.Sinks Spec.Envelope Spec.SmtpData Spec.Xtext Spec.Rfc5322 Spec.Rfc2047 Spec.Rfc2231 Spec.Cte Proofs.DkimShapeCert.
+  Model.Auth Model.Client Model.Address Model.HeaderEnc Model.Body Model.Mailbox Model.Headers Model.Builder Model.BuilderFields Model.Pool Model.Mime Model.Transports Model.Dkim Model.Date Model.TypedHeaders Model.Tls Spec.Dkim Spec.MimeReader Spec.Sinks Spec.Envelope Spec.SmtpData Spec.Xtext Spec.Rfc5322 Spec.Rfc2047 Spec.Rfc2231 Spec.Cte Proofs.DkimShapeCert.
 Extraction Language OCaml.
 Extraction "model.ml"
   Codec.encode Codec.wire SmtpData.server_data SmtpData.recv
@@ -22,7 +22,7 @@ Extraction "model.ml"
   Mailbox.show_mailbox Mailbox.show_mailboxes Mailbox.parse_mailbox_raw Mailbox.parse_mailbox_list_raw
   Mailbox.mailbox_from_str Mailbox.mailboxes_from_str
   Headers.run_hops Headers.show_headers
-  Builder.build_ops Envelope.spec_build
+  Builder.build_ops Envelope.spec_build BuilderFields.fields_after
   Pool.step Pool.p_init
   Mime.format_desc MimeReader.parse_entity MimeReader.ct_boundary
   Transports.sendmail_args Transports.json_envelope Transports.stub_keeps_octets Sinks.read_envelope Sinks.sendmail_reads
